@@ -25,6 +25,7 @@ RULE = ("(1) grammar-derived files: a prelude of no-op functions followed by 1..
         "argument boundaries == reference lexer (legacy commands skipped and counted); (3) the reference lexer is itself "
         "compared with CMake on every sampled file. Non-trivial (1): >=3 argument forms and one of {escape, bracket level "
         ">=1, nested parentheses, non-ASCII, comment adjacent to an argument}; distinct by SHA-1 of the case")
+RULE_MORE = "dispatch-colliding command names as in C02; known commands (set, option, cpp_*, ct_*) spelled lower/UPPER/Title case with doccomments; one-line doccomment-shaped comments '#[[[ text #]]' at the end of the file."
 ASSUMPTIONS = ["CMake 3.25.1 (`cmake -P`, trace) is the lexical judge; only executed commands are traced, so files are flat "
                "sequences of calls to prelude-defined no-op functions", "legacy unquoted arguments are outside the guarantee",
                "sources are UTF-8 without BOM"]
